@@ -535,6 +535,9 @@ def equal_T(a: T, b: T, rng=None, real_only=False, points=12):
         return False, "shape", f"shape {a.shape} != {b.shape}"
     if set(a.fi) != set(b.fi):
         return False, "indices", f"free indices {a.fi} != {b.fi}"
+    da, db = dict(zip(a.fi, a.fid)), dict(zip(b.fi, b.fid))
+    if da != db:
+        return False, "index extents", "free-index extents " + ", ".join(f"{i}: {da[i]} != {db[i]}" for i in da if da[i] != db[i])
     method = "identical"
     for (c, iv), va in a.data.items():
         asg = dict(zip(a.fi, iv))
